@@ -43,6 +43,7 @@ def check(repo, run, tier):
     g(r3, repo, run)
     g(unitrules.storage_receives_node, repo, run, 'C17.R1')
     g(unitrules.get_node_after_mutation_table, repo, run, 'C17.R3')
+    g(unitrules.child_lookup_exact, repo, run, 'C17.R3')
     g.done()
 
 
